@@ -5,6 +5,7 @@ ExcelParser().getTokens(text) (no 'unknown' token, balanced start/stop) and of
 XLFormula(text, sheet).terms (the written references).
 Oracle: the generator's own AST, canonicalised.
 """
+import re
 from vlib import ref, subject
 
 PROPERTY = 'C02'
@@ -28,7 +29,8 @@ ASSUMPTIONS = [
     'blank, union by comma, array constants, 3-D references, a blank between '
     'a unary minus and its operand',
 ]
-FLOORS = {'parses': 3000, 'delimiters_in_strings': 14}
+FLOORS = {'parses': 3000, 'delimiters_in_strings': 14,
+          'parses_with_defined_names': 500}
 ANCHOR_FUNCS = {
     'xlcalculator/parser.py': ['FormulaParser.parse',
                                'FormulaParser.shunting_yard',
@@ -275,6 +277,20 @@ def render_variant(rng, ast, variant):
 
 # rendering of string literals must survive the "@" regexp: guard by only
 # applying "@" to formulas without string literals
+def strings_of(c, out):
+    if c[0] == 'str':
+        out.append(c[1])
+    elif c[0] == 'bin':
+        strings_of(c[2], out)
+        strings_of(c[3], out)
+    elif c[0] == 'neg':
+        strings_of(c[1], out)
+    elif c[0] == 'call':
+        for x in c[2]:
+            strings_of(x, out)
+    return out
+
+
 def has_string(c):
     if c[0] == 'str':
         return True
@@ -355,6 +371,34 @@ class Runner:
                      kf=classify(tags, got), monitor='parse-tree',
                      group='tree:' + kind + ':'.join(sorted(tags)))
             return
+        # the workbook may define names; a string literal that happens to be
+        # spelt like one of them is still that string
+        strings = strings_of(want, [])
+        if strings:
+            # (only spellings a defined name can have and that the formula
+            # does not also use as a reference, constant or function name)
+            names = {t: 'Sheet9!$Z$99' for t in strings
+                     if re.fullmatch(r'[A-Za-z_]{2,}', t)
+                     and t.upper() not in ('TRUE', 'FALSE')
+                     and not re.search(r'(?<![A-Za-z_"])' + re.escape(t)
+                                       + r'(?![A-Za-z_"])',
+                                       re.sub(r'"(?:[^"]|"")*"', '""', text))}
+            names['Rate'] = 'Sheet1!$B$1'
+            got_n = subject.outcome_of_raw(
+                lambda: parser.FormulaParser().parse(text, names))
+            ctx.event('parses_with_defined_names')
+            have_n = fold_pct(canon_lib(got_n[1])) \
+                if got_n[0] == 'value' else None
+            if have_n is None or not same_tree(have_n, want):
+                ctx.fail(f'parse({text!r}, defined names {sorted(names)[:4]}) '
+                         f'gave {repr(have_n)[:300] if have_n else got_n[1]}'
+                         f', the text denotes {repr(want)[:300]}',
+                         {'formula': text, 'defined_names': names,
+                          'expected_tree': want,
+                          'observed': repr(have_n)[:600] if have_n
+                          else got_n[1]},
+                         monitor='parse-tree', group='names:' + kind)
+                return
         # string contents seen by the parser (delimiter coverage)
         self.note_delims(have)
         # token stream sanity (diagnostic monitors that also decide: an
